@@ -9,9 +9,60 @@ import (
 // Every Op* function logs the operation, issues it through the canonical handle, compares every
 // return value with the model (M-ret), updates the model, and returns a *Violation on mismatch.
 
+// quickDepth follows the first-child chain of a root container through loaded slabs only (no side effect on the cache).
+func (w *World) quickDepth(n *Node) int {
+	var s atree.Slab
+	if n.Kind == KArr && n.Arr != nil {
+		s = atree.VerifArrayRoot(n.Arr)
+	} else if n.Kind == KMap && n.Map != nil {
+		s = atree.VerifMapRoot(n.Map)
+	}
+	d := 0
+	for s != nil && d < 12 {
+		d++
+		si := atree.VerifSlabInfo(s)
+		if si == nil || len(si.Children) == 0 {
+			return d
+		}
+		s = w.ps.RetrieveIfLoaded(si.Children[0].ID)
+		if s == nil {
+			return 0 // not loaded: unknown
+		}
+	}
+	return d
+}
+
+// noteEvents counts, per operation kind, the structural side effects the operation had on its (root) container:
+// tree slabs created / removed and depth changes. Evidence only; the rare combinations (a removal that deepens the
+// tree, an overwrite that removes a level, ...) are what directed cases are written for.
+func (w *World) noteEvents() {
+	n, name := w.curNode, w.curOp
+	if n == nil || name == "" {
+		return
+	}
+	if w.st.OpGenerates > 0 {
+		w.stats.Extra["ev:"+name+":ids-allocated"]++
+	}
+	if w.st.OpRemoves > 0 {
+		w.stats.Extra["ev:"+name+":slabs-removed"]++
+	}
+	if n.Parent == nil && n.fp == nil {
+		if d := w.quickDepth(n); d > 0 {
+			if n.lastDepth > 0 && d > n.lastDepth {
+				w.stats.Extra["ev:"+name+":depth+"]++
+			} else if n.lastDepth > 0 && d < n.lastDepth {
+				w.stats.Extra["ev:"+name+":depth-"]++
+			}
+			n.lastDepth = d
+		}
+	}
+	w.curNode, w.curOp = nil, ""
+}
+
 func (w *World) beginOp(n *Node, name string) error {
 	w.opCount++
 	w.stats.Ops[name]++
+	w.curNode, w.curOp = n, name
 	if w.mon.DirtyEvery > 0 && len(w.st.OpStoreIDs)+len(w.st.OpRemoveIDs) > 0 {
 		// stores issued between two operations (disposal of returned values) belong to the previous one
 		w.noteStored()
@@ -25,6 +76,7 @@ func (w *World) beginOp(n *Node, name string) error {
 
 // endOp accounts for slabs created / removed by the operation.
 func (w *World) endOp() {
+	w.noteEvents()
 	w.stats.SlabsCreated += w.st.OpGenerates
 	w.stats.SlabsRemoved += w.st.OpRemoves
 	if w.st.OpGenerates > 0 {
@@ -295,6 +347,9 @@ func (w *World) OpMapSet(n *Node, key *Node, vn *Node) error {
 	}
 	ks := keyString(key)
 	e, existed := n.M[ks]
+	if existed {
+		w.curOp = "map.set-update"
+	}
 	expectRefusal := false
 	if w.ExpectRefusal != nil {
 		exhausted := w.ExpectRefusal(n, key)
